@@ -17,7 +17,15 @@ RULE = ("per operation (3 generators, 6 smoothers, initial plate, combination fi
         "start or after one merge), fixed size with plates exactly at the size, optimal size on size lists whose retained count ties, "
         "per-sample minimum with >= 2 samples to drop interleaved in id order with samples that stay (also through the ensemble), plate "
         "names mostly `generated_plate_<n>` with one- and two-digit n; numpy seed recorded per case. The oracles read the INPUT from the "
-        "raw case description. Non-trivial: operation returned, >=4 rows, >=2 unobserved plates.")
+        "raw case description. Non-trivial: operation returned, >=4 rows, >=2 unobserved plates."
+        " HARDENING_CHECKLIST classes (evidence `class.*`): every case checks the input screen byte-for-byte after the call; 3 cases per "
+        "operation (+ directed ones) run a history on ONE operation object (op(relative of the input with an extra plate/sample); op(input) "
+        "judged; op(input) again) and compare with a fresh object and re-read the judged result; inputs as Fortran / strided / negative-stride / "
+        "read-only / <U48 arrays and names >= 27 characters; supplied mappings with shuffled rows and permuted ids, screens without any "
+        "control, pairwise single-agent samples that are not a sorted prefix of the combination samples; array attributes of results "
+        "enumerated by introspection (+ ids one-to-one with names); 5 cases per operation repeated in another interpreter with another "
+        "PYTHONHASHSEED; generator seed 0, one-row screens, parameters 0/1, sample id 0 dropped; rows shuffled (observed rows before / between "
+        "unobserved ones, plates and samples interleaved); >= 11 and >= 101 generated plates.")
 
 
 def run(ctx, res):
@@ -25,4 +33,4 @@ def run(ctx, res):
 
 
 def replay(ctx, case, res):
-    P.replay_property(ctx, case, res, P.oracles_c13)
+    P.replay_property(ctx, case, res, P.oracles_c13, "C13")
